@@ -493,6 +493,65 @@ def gen_eliminate(rng, count):
         yield dict(unit='eliminate', cfg=c['cfg'], ballots=ballots)
 
 
+def nan_case_ok(c):
+    """a well-formed range ballot (pairs candidate / exact number) under a validator with a configured score range"""
+    if c.get('unit') != 'validate' or c['cfg']['kind'] != 'range' or all(b is None for b in c['cfg']['range']):
+        return False
+    o = c['obj']
+    return (o[0] == 'f' and len(o[1]) >= 1
+            and all(x[0] == 't' and len(x[1]) == 2 and x[1][0][0] == 'c' and x[1][1][0] == 'n' for x in o[1]))
+
+
+def nan_check(ctx, stream, c):
+    """implementation-side clause outside the exact-number model: a score that is not a number comparable with the bounds (float NaN)
+    lies in no inclusive range, so the ballot is rejected by a vote / candidate error, the filter removes it, and the bare range checker
+    refuses the value"""
+    import votelib.vote as vv
+    import votelib.candidate as vc
+    import votelib.convert as conv
+    i = c['_nan'] % len(c['obj'][1])
+    items = [pyobj(x) for x in c['obj'][1]]
+    items[i] = (items[i][0], float('nan'))
+    try:
+        ballot = frozenset(items)
+    except TypeError:
+        return
+    v = validator_obj(c['cfg'])
+    ctx.dist['stream:' + stream] += 1
+    ctx.evaluations += 1
+    why = None
+    try:
+        v.validate(ballot)
+        why = 'range ballot with a NaN score accepted although a score range is configured'
+    except (vv.VoteError, vc.CandidateError):
+        pass
+    except Exception as e:   # noqa
+        why = 'NaN score rejected by %s instead of a vote / candidate error' % type(e).__name__
+    if why is None:
+        lo, hi = pyb(c['cfg']['range'])
+        if vv.VoteMagnitudeChecker((lo, hi)).is_valid(float('nan')):
+            why = 'VoteMagnitudeChecker(%r, %r).is_valid(nan) is True' % (lo, hi)
+    if why is None:
+        try:
+            out = conv.InvalidVoteEliminator(v).convert({ballot: 3})
+            if len(out):
+                why = 'InvalidVoteEliminator keeps a ballot with a NaN score under a configured score range'
+        except vc.CandidateError:
+            pass      # the filter's candidate-error behaviour is judged by the eliminator stream (known finding there)
+    if why:
+        ctx.report(stream, c, '(accepted)', '(rejected)', why, None)
+
+
+def gen_nan(rng, count):
+    k = 0
+    for c in gen_validate(rng, count * 12):
+        if nan_case_ok(c):
+            yield dict(c, _nan=rng.randint(0, 7))
+            k += 1
+            if k >= count:
+                return
+
+
 def corpus():
     import os, json, glob
     for p in sorted(glob.glob(os.path.join(common.VERIF, 'corpus', ID, '*.json'))):
@@ -505,9 +564,13 @@ def explore(ctx, widen=1):
     ctx.differential('grammar', gen_validate(ctx.rng, ctx.n(6000, 80000) * widen), model_line, impl, **kw)
     ctx.differential('unhashable', gen_unhashable(ctx.rng, ctx.n(400, 4000) * widen), model_line, impl, **kw)
     ctx.differential('eliminator', list(gen_eliminate(ctx.rng, ctx.n(600, 6000) * widen))[:ctx.n(1500, 15000)], model_line, impl, **kw)
+    for c in gen_nan(ctx.rng, ctx.n(300, 3000) * widen):
+        nan_check(ctx, 'nan-score', c)
     acc = sum(1 for s in ctx.samples if s)
     ctx.notes.append('accepted/rejected split is recorded in input_distribution')
 
 
 def replay(ctx, case, stream=None):
+    if case.get('_nan') is not None:
+        return nan_check(ctx, 'replay', case)
     ctx.differential('replay', [case], model_line, impl, canon=canon, nontrivial=nontrivial, spec=spec, known_class=known_class)
